@@ -5,6 +5,7 @@ SESS = "hippolyzer/lib/proxy/sessions.py"
 CAPS = "hippolyzer/lib/proxy/caps.py"
 STATE = "hippolyzer/lib/client/state.py"
 CLIENT = "hippolyzer/lib/proxy/caps_client.py"
+WEBAPP = "hippolyzer/lib/proxy/webapp_cap_addon.py"
 
 _REQ_LOOP = '''            for known_cap_name, (known_cap_type, known_cap_url) in cap_data.region().caps.items():
                 if known_cap_type == CapType.PROXY_ONLY and known_cap_name in parsed_seed:
@@ -321,6 +322,28 @@ VARIANTS = [
      "new": "        dirty = False\n        for cap_name, cap_url in caps.items():\n            if isinstance(cap_url, str) and cap_url.startswith('http'):\n"
             "                self.caps.add(cap_name, (CapType.NORMAL, cap_url))\n                dirty = True\n"
             "        if dirty:\n            self._recalc_caps()"},
+    # ---- round 8 mechanisms
+    {"name": "R2 register_region swallows a Seed that is known but not the newest", "file": STATE, "expect": "C16.R2",
+     "old": '                if seed_url and region.cap_urls.get("Seed") != seed_url:',
+     "new": '                if seed_url and seed_url not in region.cap_urls.getall("Seed", []):'},
+    {"name": "P R2 register_region compares with the newest Seed through a local", "file": STATE, "expect": "silent",
+     "old": '                if seed_url and region.cap_urls.get("Seed") != seed_url:\n                    region.update_caps({"Seed": seed_url})',
+     "new": '                if not seed_url:\n                    pass\n                elif region.cap_urls["Seed"] != seed_url:\n'
+            '                    region.update_caps({"Seed": seed_url})'},
+    {"name": "R9 manager remembers URLs that did not resolve", "expect": "C16.R9", "edits": [
+        {"file": SESS, "old": "        for session in self.sessions:\n            cap_data = session.resolve_cap(url)",
+         "new": "        if url in self.addon_ctx.get('unresolved', ()):\n            return CapData()\n"
+                "        for session in self.sessions:\n            cap_data = session.resolve_cap(url)"}]},
+    {"name": "P R9 manager returns early when it has no sessions", "file": SESS, "expect": "silent",
+     "old": "        for session in self.sessions:\n            cap_data = session.resolve_cap(url)",
+     "new": "        if not self.sessions:\n            return CapData()\n        for session in self.sessions:\n            cap_data = session.resolve_cap(url)"},
+    {"name": "R11 webapp addon hook answers with the registered URL", "file": WEBAPP, "expect": "C16.R11",
+     "old": "        # response that gets sent back to the client if that cap name was requested.\n        region.register_proxy_cap(self.CAP_NAME)",
+     "new": "        # response that gets sent back to the client if that cap name was requested.\n        url = region.register_proxy_cap(self.CAP_NAME)\n        return url"},
+    {"name": "P R11 webapp addon hook logs the registered URL", "file": WEBAPP, "expect": "silent",
+     "old": "        # response that gets sent back to the client if that cap name was requested.\n        region.register_proxy_cap(self.CAP_NAME)",
+     "new": "        # response that gets sent back to the client if that cap name was requested.\n        url = region.register_proxy_cap(self.CAP_NAME)\n"
+            "        logging.debug('mounted %s at %s', self.CAP_NAME, url)\n        return None"},
     # ---- documented limits
     {"name": "X only https URLs are tracked (validity filter is value-level)", "file": REG, "expect": "miss",
      "old": "cap_url.startswith('http')", "new": "cap_url.startswith('https')"},
